@@ -17,6 +17,13 @@ arbitrary positive damping factors, an ARBITRARY positive adaptive sequence
 `pfreq`, `n_damp`, `max_steps`, and any sorted list of requested times
 (clustered, duplicated, on step times, equal to or beyond tf).
 `(solve c dt0).2` is the whole event trace, `(solve c dt0).1` the final state.
+`terminates` and the two exact `recorded_dt_*_mode` theorems additionally
+assume `Lower`: a positive lower bound on the proposed steps and a
+non-decreasing damping ramp inside `[fmin, 1]`.
+
+What is NOT covered: rounding of `t + dt` (the theorems are exact-field; the
+harness evaluates the property on every implementation trace instead), and
+the one measure-zero corner kept as a disjunct in `dump_at_requested_time`.
 -/
 set_option linter.unusedSectionVars false
 namespace PysphVerif.C10
